@@ -103,7 +103,7 @@ def op_window(rng, name, ctx, context=True, nested=None):
         k = cat['path_names'][name]
         if name == 'BSC_posix_spawn' and rng.chance(0.4):
             k = 6
-        inner = [op_lookup(rng) for _ in range(k)] + inner
+        inner = [_with_between(rng, op_lookup(rng), 0.15) for _ in range(k)] + inner
     if name in DYLD_STRING_ARG:
         idx = DYLD_STRING_ARG[name]
         if context:
@@ -180,6 +180,22 @@ class Ctx:
         return (self.ti + 1) * 1000 + self.npid
 
 
+def _with_between(rng, op, p=0.3):
+    """Sometimes another emitter's record on the same thread (an interrupt handler's pair, a scheduler single) sits
+    between the records of a multi-record item."""
+    if rng.chance(p):
+        n = len((op.get('path') or op.get('text') or '').encode())
+        nchunks = 1 + max(0, (n - (24 if op['k'] == 'lookup' else 16) + 31) // 32)
+        if nchunks >= 2:
+            if rng.chance(0.5):
+                s, e = domains.draw(rng, 'INTERRUPT')
+                sub = {'k': 'sys', 'name': 'INTERRUPT', 's': s, 'e': e, 'in': []}
+            else:
+                sub = op_single(rng, 'MACH_MKRUNNABLE')
+            op['between'] = {str(rng.randrange(nchunks - 1)): [sub]}
+    return op
+
+
 def gen_ops(rng, ctx, n_ops, mix=None, depth=0):
     """A thread program of about n_ops ops drawn from the families in `mix` (dict family -> weight)."""
     cat = catalog()
@@ -228,9 +244,9 @@ def gen_ops(rng, ctx, n_ops, mix=None, depth=0):
                 ops.append({'k': 'one', 'name': 'TRACE_DATA_THREAD_TERMINATE_PID', 'q': 0,
                             'a': [ctx.new_pid(), rng.word(), 0, 0]})
         elif f == 'lookup':
-            ops.append(op_lookup(rng))
+            ops.append(_with_between(rng, op_lookup(rng)))
         elif f == 'gstr':
-            ops.append(op_gstr(rng, ctx.new_string_id()))
+            ops.append(_with_between(rng, op_gstr(rng, ctx.new_string_id())))
         elif f == 'undecoded':
             eid, _name = rng.pick(cat['undecoded'])
             if rng.chance(0.5):
@@ -255,12 +271,20 @@ def gen_threads(rng, nthreads, ops_lo=1, ops_hi=8, mix=None, peers=False):
     return threads
 
 
+def draw_tsmode(rng, ties=True, p=0.35):
+    """Timestamp shape of the merged stream: strictly increasing (None), unique but non-monotone, or with ties."""
+    if not rng.chance(p):
+        return None
+    kind = rng.pick(['jitter', 'jitter', 'ties'] if ties else ['jitter'])
+    return [kind, [rng.randint(-3, 3) for _ in range(rng.randint(3, 11))]]
+
+
 def build_stream(scn, fired=None):
     """threads + schedule + faults -> merged record list (each with ts, th, o)."""
     table = tool.make_table(scn.get('table', 'bundled'))
     ids = tool.ids_by_name(table if scn.get('table', 'bundled') != 'bundled' else None)
     per = kernel.expand_threads(scn['threads'], ids)
-    stream = kernel.merge(per, scn.get('schedule', []), scn.get('t0', 0x10000001), scn.get('dts'))
+    stream = kernel.merge(per, scn.get('schedule', []), scn.get('t0', 0x10000001), scn.get('dts'), scn.get('tsmode'))
     stream = kernel.apply_faults(stream, scn.get('faults', []), fired)
     return table, stream
 
@@ -296,7 +320,7 @@ def gen_tmap(rng, threads, n_extra=3, declare_p=0.7):
         if rng.chance(declare_p):
             tmap.append([th['tid'], rng.randrange(1, 5000), rng.text(rng.randint(0, 19), multibyte=False), ''])
     for _ in range(rng.randint(0, n_extra)):
-        tmap.append([rng.randrange(1, 1 << rng.pick([16, 32, 63])), rng.randrange(0, 1 << rng.pick([8, 16, 31])),
+        tmap.append([rng.randrange(1, 1 << rng.pick([16, 32, 63])), rng.pick([rng.randrange(0, 1 << rng.pick([8, 16, 31])), 0x80000000, 0xffffffff, 0xfffffffe, rng.randrange(1 << 31, 1 << 32), 0]),
                      rng.text(rng.pick([0, 1, 5, 18, 19]), multibyte=True)[:19], rng.pick(['', 'ff', '00aa', '416200'])])
     if tmap and rng.chance(0.3):   # duplicate key, later wins
         t = list(rng.pick(tmap))
@@ -424,6 +448,18 @@ def gen_writer(rng, version, threads, nrec_hint=0, logs=True, with_tai=False):
         blocks += logblocks
         blocks.append({'kind': 'strings', 'payload': {'StringIndex': {s: idxmap[i] for i, s in enumerate(all_strings)}}})
     rng.shuffle(blocks)
+    if blocks and rng.chance(0.3):
+        # the same payload again later in the file (e.g. the same module list reported twice)
+        import copy
+        for _ in range(rng.randint(1, 2)):
+            b = copy.deepcopy(rng.pick(blocks))
+            if b['kind'] not in ('strings', 'logs', 'processes', 'images'):
+                blocks.insert(rng.randrange(len(blocks) + 1), b)
+    for kind in ('dyld', 'kexts', 'codes'):
+        idx = [i for i, b in enumerate(blocks) if b['kind'] == kind]
+        if len(idx) >= 2 and rng.chance(0.35):
+            import copy
+            blocks.insert(rng.randint(idx[1] + 1, len(blocks)), copy.deepcopy(blocks[idx[0]]))     # A, B, ..., A again
     w['blocks'] = blocks
     return w
 
